@@ -18,7 +18,7 @@ DECIDING = ["line_events", "member_runs_compared"]
 MIN_DECIDED_RATIO = 0.8
 FEATURES = ("assign", "agg", "control", "print", "fail", "onmatch")
 RULE = (
-    "random groups of 1-4 generated members (no cross-path signals, references or rewriting functions) x random files x all orders of "
+    "random groups of 1-4 generated members (no cross-path signals, references or rewriting functions) x random files (a third with a repeated record, a fifth in another dialect) x all orders of "
     "the group (<= 6 orders sampled for 4 members) x {standalone, collect_paths, fast_forward_paths, next_paths, collect_by_line, "
     "fast_forward_by_line, next_by_line, next_by_line(if_all_agree)}. Non-trivial: the group has >= 2 members or a member matches a line; "
     "distinct = distinct (member skeletons in order, method)."
